@@ -1334,6 +1334,8 @@ fn parse_member_instruction(instr: &Ident, input: TokenStream, own_instr: bool, 
 }
 
 fn try_parse_type_hint(input: ParseStream) -> Result<TypeHint> {
+    #[cfg(o2o_verif)]
+    crate::verif_seam::yield_point("attr:type_hint");
     if !input.peek(Token![as]) {
         return Ok(TypeHint::Unspecified);
     }
@@ -1360,6 +1362,8 @@ fn try_parse_type_hint(input: ParseStream) -> Result<TypeHint> {
 }
 
 fn try_parse_container_ident(input: ParseStream, can_be_empty_after: bool) -> Option<TypePath> {
+    #[cfg(o2o_verif)]
+    crate::verif_seam::yield_point("attr:container_ident");
     if peek_container_path(input, can_be_empty_after) {
         let ident = input.parse::<syn::Path>();
         if input.peek(Token![|]) {
@@ -1438,6 +1442,8 @@ fn try_parse_child_parents(input: ParseStream) -> Result<Punctuated<ChildParentD
 }
 
 fn try_parse_action(input: ParseStream, allow_braceless: bool) -> Result<Option<TokenStream>> {
+    #[cfg(o2o_verif)]
+    crate::verif_seam::yield_point("attr:action");
     if input.is_empty() {
         Ok(None)
     } else if input.peek(Token![@]) || input.peek(Token![~]) {
